@@ -76,6 +76,9 @@ pub fn unmarshal_header(cursor: &mut Cursor) -> UnmarshalResult<Header> {
     };
     let flags = cursor.read_u8()?;
     let version = cursor.read_u8()?;
+    if version != 1 {
+        return Err(UnmarshalError::InvalidProtocolVersion);
+    }
     let body_len = cursor.read_u32(byteorder)?;
     let serial =
         NonZeroU32::new(cursor.read_u32(byteorder)?).ok_or(UnmarshalError::InvalidSerial)?;
@@ -167,32 +170,15 @@ fn unmarshal_header_fields(
         return Err(UnmarshalError::NotEnoughBytes);
     }
 
-    let mut cursor = Cursor::new(cursor.read_raw(header_fields_bytes as usize)?);
+    // The fields start at offset 16 of the message, so offsets in this region have the same alignment as in the whole message
+    let fields_buf = cursor.read_raw(header_fields_bytes as usize)?;
+    let mut cursor = Cursor::new(fields_buf);
     let mut fields = Vec::new();
 
     while !cursor.remainder().is_empty() {
-        match unmarshal_header_field(header, &mut cursor) {
-            Ok(field) => {
-                fields.push(field);
-            }
-            Err(UnmarshalError::UnknownHeaderField) => {
-                // try to validate that there is indeed a valid dbus variant. This is mandatory so the message follows the spec,
-                // even if we just ignore the contents.
-                match crate::wire::validate_raw::validate_marshalled(
-                    header.byteorder,
-                    0,
-                    cursor.remainder(),
-                    &crate::signature::Type::Container(crate::signature::Container::Variant),
-                ) {
-                    Ok(bytes) => {
-                        // ignore happy path, but increase counter.
-                        cursor.advance(bytes);
-                    }
-                    // if the unknown header contains invalid values this is still an error, and the message should be treated as unreadable
-                    Err((_bytes, err)) => return Err(err),
-                }
-            }
-            Err(e) => return Err(e),
+        // unknown fields are validated and skipped
+        if let Some(field) = unmarshal_header_field(header, fields_buf, &mut cursor)? {
+            fields.push(field);
         }
     }
     params::validate_header_fields(header.typ, &fields)
@@ -201,7 +187,11 @@ fn unmarshal_header_fields(
     Ok(fields)
 }
 
-fn unmarshal_header_field(header: &Header, cursor: &mut Cursor) -> UnmarshalResult<HeaderField> {
+fn unmarshal_header_field(
+    header: &Header,
+    fields_buf: &[u8],
+    cursor: &mut Cursor,
+) -> UnmarshalResult<Option<HeaderField>> {
     // align to 8 because the header fields are an array of structs `a(yv)`
     cursor.align_to(8)?;
 
@@ -216,7 +206,7 @@ fn unmarshal_header_field(header: &Header, cursor: &mut Cursor) -> UnmarshalResu
         return Err(UnmarshalError::NoSignature);
     }
     let sig = sig.remove(0);
-    match typ {
+    let field = match typ {
         1 => match sig {
             signature::Type::Base(signature::Base::ObjectPath) => {
                 let objpath = cursor.read_str(header.byteorder)?;
@@ -226,21 +216,27 @@ fn unmarshal_header_field(header: &Header, cursor: &mut Cursor) -> UnmarshalResu
             _ => Err(UnmarshalError::WrongSignature),
         },
         2 => match sig {
-            signature::Type::Base(signature::Base::String) => Ok(HeaderField::Interface(
-                cursor.read_str(header.byteorder)?.to_owned(),
-            )),
+            signature::Type::Base(signature::Base::String) => {
+                let interface = cursor.read_str(header.byteorder)?;
+                crate::params::validate_interface(interface)?;
+                Ok(HeaderField::Interface(interface.to_owned()))
+            }
             _ => Err(UnmarshalError::WrongSignature),
         },
         3 => match sig {
-            signature::Type::Base(signature::Base::String) => Ok(HeaderField::Member(
-                cursor.read_str(header.byteorder)?.to_owned(),
-            )),
+            signature::Type::Base(signature::Base::String) => {
+                let member = cursor.read_str(header.byteorder)?;
+                crate::params::validate_membername(member)?;
+                Ok(HeaderField::Member(member.to_owned()))
+            }
             _ => Err(UnmarshalError::WrongSignature),
         },
         4 => match sig {
-            signature::Type::Base(signature::Base::String) => Ok(HeaderField::ErrorName(
-                cursor.read_str(header.byteorder)?.to_owned(),
-            )),
+            signature::Type::Base(signature::Base::String) => {
+                let error_name = cursor.read_str(header.byteorder)?;
+                crate::params::validate_errorname(error_name)?;
+                Ok(HeaderField::ErrorName(error_name.to_owned()))
+            }
             _ => Err(UnmarshalError::WrongSignature),
         },
         5 => match sig {
@@ -252,15 +248,19 @@ fn unmarshal_header_field(header: &Header, cursor: &mut Cursor) -> UnmarshalResu
             _ => Err(UnmarshalError::WrongSignature),
         },
         6 => match sig {
-            signature::Type::Base(signature::Base::String) => Ok(HeaderField::Destination(
-                cursor.read_str(header.byteorder)?.to_owned(),
-            )),
+            signature::Type::Base(signature::Base::String) => {
+                let destination = cursor.read_str(header.byteorder)?;
+                crate::params::validate_busname(destination)?;
+                Ok(HeaderField::Destination(destination.to_owned()))
+            }
             _ => Err(UnmarshalError::WrongSignature),
         },
         7 => match sig {
-            signature::Type::Base(signature::Base::String) => Ok(HeaderField::Sender(
-                cursor.read_str(header.byteorder)?.to_owned(),
-            )),
+            signature::Type::Base(signature::Base::String) => {
+                let sender = cursor.read_str(header.byteorder)?;
+                crate::params::validate_busname(sender)?;
+                Ok(HeaderField::Sender(sender.to_owned()))
+            }
             _ => Err(UnmarshalError::WrongSignature),
         },
         8 => match sig {
@@ -281,8 +281,21 @@ fn unmarshal_header_field(header: &Header, cursor: &mut Cursor) -> UnmarshalResu
             _ => Err(UnmarshalError::WrongSignature),
         },
         0 => Err(UnmarshalError::InvalidHeaderField),
-        _ => Err(UnmarshalError::UnknownHeaderField),
-    }
+        _ => {
+            // Validate that there is indeed a valid value of the announced type. This is mandatory so the message
+            // follows the spec, even if we just ignore the contents.
+            let bytes = crate::wire::validate_raw::validate_marshalled(
+                header.byteorder,
+                cursor.consumed(),
+                fields_buf,
+                &sig,
+            )
+            .map_err(|(_pos, err)| err)?;
+            cursor.advance(bytes);
+            return Ok(None);
+        }
+    };
+    field.map(Some)
 }
 
 fn collect_header_fields(header_fields: &[HeaderField], hdr: &mut DynamicHeader) {
